@@ -1288,3 +1288,83 @@ UNITS["seq"]["items"].insert(1,
     ensures
         r == seen(self, sequence, message_hash), // @C12/seq/seen_iff_an_entry_has_the_same_number_and_hash
 """})
+
+# --- DhtCoreEngine::handle_request (await-erased) + DataStore::{put, get}: request dispatch under contract (C02 reply shape, C05 value cap)
+UNITS["bucket"].setdefault("enums_from", [])
+UNITS["bucket"]["enums_from"] += [("src/dht/network_integration.rs", "DhtMessage"), ("src/dht/network_integration.rs", "DhtResponse"), ("src/dht/network_integration.rs", "ErrorCode")]
+UNITS["bucket"]["consts_verbatim"] = list(UNITS["bucket"].get("consts_verbatim", [])) + ["K", "MAX_DHT_VALUE_SIZE", "MAX_FIND_NODE_COUNT"]
+UNITS["bucket"]["shims"]["DhtCoreEngine"] = (None, {"node_id": "NodeId"})
+UNITS["bucket"]["shims"]["DhtRequestWrapper"] = (None, {"id": "String", "message": "DhtMessage"})
+UNITS["bucket"]["shims"]["DhtResponseWrapper"] = (None, {"id": "String", "response": "DhtResponse"})
+UNITS["bucket"]["shims"]["DataStore"] = (None, {"data": "HashMap<DhtKey, Vec<u8>>", "metadata": "HashMap<DhtKey, DataMetadata>"})
+UNITS["bucket"]["shims"]["DataMetadata"] = (None, {"_size": "usize", "_stored_at": "SystemTime", "access_count": "u64", "last_accessed": "SystemTime"})
+UNITS["bucket"]["items"] += [
+    {"impl": "DataStore", "fn": "put",
+     "append": "proof { assert(self@ =~= old(self)@.insert(key, value@)); }",
+     "spec": """
+    ensures
+        final(self)@ == old(self)@.insert(key, value@), // @C05/store/put_stores_exactly_the_given_bytes_under_the_given_key
+"""},
+    {"impl": "DataStore", "fn": "get",
+     "rewrite": [(r"self\.metadata\.get_mut\(key\)", "verif_meta_get_mut(&mut self.metadata, key)", "callee renamed to a shim fn standing for HashMap::get_mut on the metadata map (bookkeeping only: no contract)"),
+                 (r"self\.data\.get\(key\)\.cloned\(\)", "verif_cloned(self.data.get(key))", "`.cloned()` renamed to a shim fn standing for Option<&Vec<u8>>::cloned (contract: a copy of the bytes)")],
+     "spec": """
+    requires
+        old(self).counters_below_max(),
+    ensures
+        final(self)@ == old(self)@, // @C05/store/get_never_changes_the_stored_bytes
+        r.is_some() == old(self)@.contains_key(*key), r matches Some(v) ==> v@ == old(self)@[*key], // @C05/store/get_returns_exactly_the_stored_bytes
+"""},
+]
+UNITS["bucket"]["items"].append(
+    {"impl": "DhtCoreEngine", "fn": "handle_request",
+     "block": {"name": "verif_handle_request_sequential", "of": "DhtCoreEngine::handle_request",
+               "sig": "fn verif_handle_request_sequential(&self, data_store_g: &mut DataStore, routing_g: &KademliaRoutingTable, request_wrapper: DhtRequestWrapper) -> DhtResponseWrapper",
+               "why": "await erasure: every .await of handle_request is a tokio RwLock acquisition (data store, routing table); each guarded object became a parameter"},
+     "rewrite": [
+         (r"self\s*\.data_store\s*\.write\(\)\s*\.await", "data_store_g", "lock acquisition expression replaced by the parameter that stands for the guarded data store"),
+         (r"let routing = self\.routing_table\.read\(\)\.await;", "let routing = routing_g;", "lock acquisition replaced by the parameter that stands for the guarded routing table (read guard)"),
+         (r"crate::dht::network_integration::ErrorCode::", "ErrorCode::", "path shortened (the enum is declared in this unit)"),
+         (r"format!\(\s*\"Value too large: \{\} bytes \(max: \{\} bytes\)\",\s*value\.len\(\),\s*MAX_DHT_VALUE_SIZE\s*\)", "verif_error_text()", "error message text (format!) moved into an opaque shim: not part of any obligation"),
+         (r"\"Unsupported message type\"\.to_string\(\)", "verif_error_text()", "error message text moved into an opaque shim"),
+     ],
+     "spec": """
+    requires
+        routing_g.wf(),
+        old(data_store_g).counters_below_max(),
+    ensures
+        r.id == request_wrapper.id,
+        request_wrapper.message matches DhtMessage::FindNode { target, count } ==> (r.response matches DhtResponse::FindNodeReply { nodes, distances }
+            && fcn_post(routing_g, &target, (if count <= 20 { count } else { 20usize }), nodes@) && nodes@.len() <= 20), // @C02/reply/find_node_reply_is_the_closest_min_count_20_entries_never_more_than_the_cap
+        request_wrapper.message matches DhtMessage::FindNode { target, count } ==> (r.response matches DhtResponse::FindNodeReply { nodes, distances } && nodes@.len() <= 20), // @C05/request/a_find_node_reply_never_names_more_than_20_nodes_whatever_count_was_asked
+        request_wrapper.message matches DhtMessage::FindValue { key } ==> (r.response matches DhtResponse::FindValueReply { value, nodes }
+            && (old(data_store_g)@.contains_key(key) ==> (value matches Some(v) && v@ == old(data_store_g)@[key]) && nodes@.len() == 0)
+            && (!old(data_store_g)@.contains_key(key) ==> value.is_none() && fcn_post(routing_g, &key, 8usize, nodes@) && nodes@.len() <= 8)), // @C02/reply/find_value_reply_names_at_most_k_closest_entries
+        request_wrapper.message matches DhtMessage::Store { key, value, ttl } ==> (
+            (value@.len() > 512 ==> r.response is Error && final(data_store_g)@ == old(data_store_g)@) // @C05/request/a_stored_value_over_512_bytes_is_refused_and_never_enters_the_store
+            && (value@.len() <= 512 ==> final(data_store_g)@ == old(data_store_g)@.insert(key, value@))),
+        !(request_wrapper.message is Store) ==> final(data_store_g)@ == old(data_store_g)@, // @C05/request/only_a_store_request_changes_the_store
+        request_wrapper.message matches DhtMessage::Retrieve { key, consistency } ==> r.response matches DhtResponse::RetrieveReply { value }
+            && value.is_some() == old(data_store_g)@.contains_key(key) && (value matches Some(v) ==> v@ == old(data_store_g)@[key]), // @C05/request/retrieve_returns_exactly_the_stored_bytes_or_nothing
+"""})
+
+# --- which properties each function of the shared `bucket` unit serves = whose obligations depend on it (closed under
+# calls). lib/verus_run.py extracts, per property, only the items that serve it; `tags_by_owner`: the tagged clauses of a
+# top-level function on which nothing else depends are reported only by the property named in the tag.
+_C05_DEPS = {"verif_handle_request_sequential", "put", "get", "find_closest_nodes", "get_bucket_index_for_key", "get_nodes"}
+for _it in UNITS["bucket"]["items"]:
+    _nm = (_it.get("block") or {}).get("name") or _it["fn"]
+    if _nm in ("verif_critical_section_node_failure", "verif_critical_section_evict"):
+        _it["serves"] = ["C16"]
+    elif _nm == "verif_handle_request_sequential":
+        _it["serves"] = ["C02", "C05"]
+        _it["tags_by_owner"] = True
+    elif _it.get("impl") == "DataStore":
+        _it["serves"] = ["C02", "C05"]
+        if _nm == "put":
+            _it["tags_by_owner"] = True
+    elif _nm == "find_closest_nodes":
+        _it["serves"] = ["C02", "C05"]
+    else:
+        _it["serves"] = ["C02", "C16"] + (["C05"] if _nm in _C05_DEPS else [])
+UNITS["bucket"]["search_tests"] = {"C02": "verif_search_c02", "C05": "verif_search_reqh_c05", "C16": "verif_search_c16_route"}
